@@ -1910,6 +1910,11 @@ class _GroupElem(ABC):
             j_f = Normalize(coord[p2_f] - coord[p0_f])
 
             n_f = Normalize(np.cross(i_f, j_f, 1, 1))
+            # the face table gives outward normals for a positively oriented element;
+            # a mirrored mesh holds negatively oriented ones
+            jacobian = self.Get_jacobian_e_pg(MatrixType.mass, absoluteValues=False)
+            if jacobian[elem, 0] < 0:
+                n_f = -n_f
 
             coordinates_n_i = coordinates_n[:, np.newaxis].repeat(Nface, 1)
 
